@@ -37,7 +37,9 @@ func lockstep(c *core.Ctx, a, b *Dyn, steps int, what string) {
 func runC12(c *core.Ctx) {
 	r := c.R
 	kind := dynKinds[c.Index%len(dynKinds)]
-	total := isKV(kind) || kind == "BinaryHeap" || kind == "PriorityQueue"
+	// with ties the statement leaves the surviving representative open, so the
+	// comparator-ordered containers use total orders here
+	total := isKV(kind) || kind == "BinaryHeap" || kind == "PriorityQueue" || kind == "TreeSet"
 	d := newDynRandom(c, kind, total)
 	// prior state
 	prior := "empty"
@@ -274,7 +276,7 @@ func init() {
 		Files: serFiles,
 		Assumptions: []string{
 			"the denotation of an input is what encoding/json decodes into a fresh []T / map[K]V (pairs in document order); success on input that is not valid JSON or not denotable for the type is recorded but not judged on content",
-			"key-value containers, BinaryHeap and PriorityQueue use natural or reversed comparators here (with ties the statement leaves the winner open); TreeSet also a coarsened one",
+			"comparator-ordered containers use total orders here (natural, reversed, un-normalised): with ties the statement leaves the surviving representative open",
 			"a clean run says the property held on the executed (state, input) pairs only",
 		},
 	})
